@@ -582,6 +582,10 @@ def body(chk, db, cfgname):
         else:
             r6.bad(site, g.loc(), "%s does not compare the hash of this object with the hash of rhs by '%s': the three relations disagree about which quantum numbers are equal" % (opn, rel), cfgname)
 
+    r7 = chk.rule("C07-R7", "the symmetry analysis and the state classification run once: compute() returns at once when Status >= the level it establishes (a second call would register every integral of motion / every state twice)", "F1 pairing", 3)
+    from checks.lehmann import check_status_guards
+    check_status_guards(r7, db, cfgname, ("Pomerol::Symmetrizer", "Pomerol::StatesClassification"))
+
     chk.undecided.append("that accepted integrals of motion make H block diagonal and every c, c^+, c^+c single-target at the value level; mapsTo takes the image block from the first non-annihilated state (sound only for linear integrals of motion) and QuantumNumbers are compared through a floating-point hash: noted, not armed")
     chk.trusted.append("virtual calls (Operator::getMatrixElement) are summarised through their static callee")
 
